@@ -465,9 +465,7 @@ func (g *Gen) cmp(s Scopes, depth int) *Expr {
 	}
 	if !g.NoStrings && g.chance(0.3) {
 		coll := g.anyColl()
-		if op == "nseq" && coll == "ci" {
-			op = "eq" // <=> ignores the _ci collation (known finding C02-nullsafe-eq-ignores-ci)
-		}
+		// (<=> over _ci operands was steered around until the repair of C02-nullsafe-eq-ignores-ci)
 		return Op(op, g.StrExpr(s, depth, coll), g.StrExpr(s, depth, coll))
 	}
 	if g.NarrowInts && g.chance(0.3) {
@@ -702,9 +700,8 @@ func (g *Gen) GroupedSelect(outer Scopes, depth int) selOut {
 		q.Proj = append(q.Proj, a)
 		out = append(out, c)
 	}
-	if g.chance(0.4) && f.K == "table" {
-		// HAVING only over a single-table FROM: with a join the engine fails to resolve the second
-		// table alias inside HAVING aggregates (known finding C02-having-join-alias)
+	if g.chance(0.4) {
+		// (HAVING over joins was steered around until the repair of C02-having-join-alias)
 		k := len(q.Proj) - 1 - g.pick(na)
 		if out[k].Ty == "i" {
 			q.Having = Op(cmpOps[g.pick(6)], q.Proj[k], Lit(g.IntVal(0)))
@@ -715,11 +712,7 @@ func (g *Gen) GroupedSelect(outer Scopes, depth int) selOut {
 
 func (g *Gen) aggExpr(s Scopes, depth int) (*Expr, ColInfo) {
 	ic := ColInfo{Ty: "i", Coll: "none"}
-	// no subqueries inside aggregate arguments: the engine rejects them with a spurious
-	// ONLY_FULL_GROUP_BY error (known finding C02-aggregate-over-subquery)
-	old := g.NoSubq
-	g.NoSubq = true
-	defer func() { g.NoSubq = old }()
+	// (subqueries inside aggregate arguments were steered around until the repair of C02-aggregate-over-subquery)
 	switch g.pick(7) {
 	case 0:
 		return Agg("countstar", nil, false), ic
@@ -765,11 +758,9 @@ func (g *Gen) orderAndLimit(o selOut) {
 			q.Order = append(q.Order, Ord{I: i + 1, Desc: g.chance(0.4)})
 		}
 	}
-	// DISTINCT + ORDER BY <ordinal> over aliased columns is a recorded engine defect (known finding
-	// C02-distinct-order-ordinal); the generator uses the alias form there so other defects stay visible.
-	// ORDER BY <ordinal> / <qualified column> over a self-join sorts by the other instance's column
-	// (known finding C02-order-self-join); ORDER BY <alias> is correct, so it is used there too.
-	q.OrdAlias = q.Distinct || hasSelfJoin(q.From) || g.chance(0.4)
+	// (DISTINCT + ORDER BY <ordinal> and ORDER BY over self-joins used the alias form until the repairs of
+	// C02-distinct-order-ordinal and C04-order-self-join; now all three spellings are drawn everywhere)
+	q.OrdAlias = g.chance(0.4)
 	if g.chance(0.3) {
 		q.Limit = g.pick(4)
 		if g.chance(0.5) {
